@@ -1567,6 +1567,17 @@ def _guard_pinned_at(ctx, p, idx):
         ty = b.locals[i]["ty"]
         if ty.startswith("&") and "ebr_impl::guard::Guard" in ty and "Option" not in ty:
             return "parameter `%s: &Guard`" % b.local_name(i)
+        # a context struct a refactoring introduced that carries the guard (`cascade: &Cascade<'_>` with `guard: &'a Guard`): the
+        # reference it holds keeps the guard borrowed, i.e. alive, for as long as the struct exists
+        base = re.sub(r"^&(?:'\w+ )?(?:mut )?", "", ty)
+        base = re.sub(r"<.*$", "", base)
+        if ty.startswith("&") and ctx.prog.is_new_type(base):
+            for a in ctx.prog.items.get("adts", []):
+                if a["path"] == base:
+                    for v in a.get("variants", []):
+                        for fl in v.get("fields", []):
+                            if fl["ty"].startswith("&") and "ebr_impl::guard::Guard" in fl["ty"] and "Option" not in fl["ty"]:
+                                return "parameter `%s` carries `%s: &Guard`" % (b.local_name(i), fl["name"])
     live = None
     for i, e in enumerate(p.events):
         if i >= idx:
